@@ -106,6 +106,8 @@ type monitor struct {
 	lastCyc  int64
 	lastTick uint64
 	nCmd     uint64
+	nCmdBase uint64 // commands seen before the last Reset (the controller's statistics restart there)
+	wasReset bool
 
 	kinds      map[string]int
 	nCol       int
@@ -126,6 +128,19 @@ func newMonitor(c *kit.Case, cc caseCfg, comp string, sp dram.Spec) *monitor {
 }
 
 func (m *monitor) recent() []string { return m.ring }
+
+// reset: the controller was Reset while idle; it is documented to be a freshly built controller afterwards
+// (all banks closed, no timing history, statistics zero), so the monitor forgets the same things.
+func (m *monitor) reset() {
+	m.banks = map[bankKey]*bank{}
+	m.rankActs = map[uint64][]int64{}
+	m.lastRD = map[[2]uint64]int64{}
+	m.lastWR = map[[2]uint64]int64{}
+	m.windows = nil
+	m.nCmdBase = m.nCmd
+	m.wasReset = true
+	m.ring = append(m.ring, "--- Reset acknowledged ---")
+}
 
 func (m *monitor) fail(key string, cmd string, format string, a ...any) {
 	m.c.Fail(key, map[string]any{"msg": fmt.Sprintf(format, a...), "cmd": cmd, "limits_cycles": m.L,
@@ -176,6 +191,9 @@ func (m *monitor) on(v dram.VerifCmd) {
 	m.kinds[v.Kind]++
 	m.r.Count("cmd/"+v.Kind, 1)
 	m.nCmd++
+	if m.wasReset {
+		m.r.Count("cmds_after_a_reset", 1)
+	}
 
 	// command bus: at most one command per controller cycle, time never runs back
 	if now < m.lastCyc {
@@ -333,8 +351,8 @@ func (m *monitor) expect(req sim.InflightReq) {
 }
 
 func (m *monitor) finish(done bool, statCmds uint64) {
-	if statCmds != m.nCmd {
-		m.fail("c22/hook-count-differs-from-controller-statistics", "", "hook saw %d commands, State counters sum to %d", m.nCmd, statCmds)
+	if statCmds != m.nCmd-m.nCmdBase {
+		m.fail("c22/hook-count-differs-from-controller-statistics", "", "hook saw %d commands (since the last Reset), State counters sum to %d", m.nCmd-m.nCmdBase, statCmds)
 	}
 	if done {
 		var bad []string
